@@ -172,7 +172,7 @@ def run(ctx):
             t = 'UPD %d %s %s' % (i, updenc.cfg_str(cfg), msg.hex() or '-')
             texts.append(t)
             f.write(t + '\n')
-    impl, _ = core.run_tool(ctx.harness, ['c02', path], timeout=1500)
+    impl, _ = core.run_tool_sharded(ctx.harness, ['c02'], path)
     impl = [l for l in impl if l]
     outcome = {}
     groups = {}
@@ -206,7 +206,7 @@ def run(ctx):
         if len(ctx.violations) > 8:
             break
     if ctx.model:
-        model, _ = core.run_tool(ctx.model, ['c02', path], timeout=1500)
+        model, _ = core.run_tool_sharded(ctx.model, ['c02'], path)
         for k, a, b in core.diff_lines(model, impl, limit=5):
             idx = int((a if a != '<missing>' else b).split(' ')[1])
             ctx.violation('model and implementation disagree', case=texts[idx][:500], model=a[:500], impl=b[:500])
